@@ -19,10 +19,11 @@ case "$dir" in
   cmd*) mod=cmd; pkg="./${dir#cmd/}";;
   *) mod=.; pkg=".";;
 esac
+TAGS=""; grep -q -- "-tags verif" "$SD/README.md" && TAGS="-tags verif"
 git apply "$SD/patch.diff" || { echo "DEMO-NOT-CONFIRMED patch does not apply"; exit 1; }
-( cd "$COPY/$mod" && timeout 600 go test -count=1 -run "TestSeed${ID}${V}" "$pkg" ) > "$COPY/with.log" 2>&1; rc_with=$?
+( cd "$COPY/$mod" && timeout 900 go test $TAGS -count=1 -run "TestSeed${ID}${V}" "$pkg" ) > "$COPY/with.log" 2>&1; rc_with=$?
 git apply -R "$SD/patch.diff"
-( cd "$COPY/$mod" && timeout 600 go test -count=1 -run "TestSeed${ID}${V}" "$pkg" ) > "$COPY/without.log" 2>&1; rc_without=$?
+( cd "$COPY/$mod" && timeout 900 go test $TAGS -count=1 -run "TestSeed${ID}${V}" "$pkg" ) > "$COPY/without.log" 2>&1; rc_without=$?
 ran=$(grep -c "^ok\|^--- \|^FAIL\|^PASS" "$COPY/without.log")
 if [ $rc_with -ne 0 ] && [ $rc_without -eq 0 ] && ! grep -q "no tests to run" "$COPY/without.log"; then
   echo "DEMO-CONFIRMED place=$rel run='cd $mod && go test -count=1 -run TestSeed${ID}${V} $pkg' with_change=FAIL without_change=PASS"
